@@ -69,6 +69,7 @@ class Digits:
         """constraints selecting a sub-domain of n (all domains are stated in the evidence):
         'low6'   : n < 10^6
         'sparse' : units group free, thousands/millions/billions groups have a single digit (d4=d5=d7=d8=d10=d11=0)
+        'scales' : every group of three has a single digit (units, thousands, millions, billions digit free)
         'full9' / 'full12' : n < 10^9 / 10^12"""
         cs = [z3.ULE(d, 9) for d in self.D]
         zero = lambda idx: [self.D[i] == 0 for i in idx if i < self.n]
@@ -82,6 +83,8 @@ class Digits:
             cs += zero(range(2, 12))
         elif name == 'sparse':
             cs += zero([4, 5, 7, 8, 10, 11])
+        elif name == 'scales':
+            cs += zero([1, 2, 4, 5, 7, 8, 10, 11])
         elif name == 'sparse9':
             cs += zero([4, 5, 7, 8, 9, 10, 11])
         elif name == 'full9':
